@@ -7,6 +7,7 @@
 #include "contracts/stubs.h"
 #include "contracts/c11.h"
 #include "src/os.c"
+#include "contracts/os_commit.h"
 
 void h_os_free_ex(void) {
   void* addr; size_t size = vc_nondet_size("size"); bool sc = vc_nondet_bool("still_committed"); mi_memid_t memid;
@@ -25,3 +26,8 @@ void h_os_alloc_aligned(void) {
   void* p = _mi_os_alloc_aligned(size, al, vc_nondet_bool("commit"), vc_nondet_bool("allow_large"), memid);
   VC_REACH();
 }
+static uint8_t vc_area[1];     /* addresses only: the ranges are never dereferenced by os.c */
+static void os_draw(void) { g_area = vc_area; g_aoff = vc_nondet_size("g_aoff"); mi_os_mem_config.page_size = g_os_page_size; g_preloading = vc_nondet_bool("g_preloading"); }
+void h_page_align(void) { os_draw(); size_t* ns; void* r = mi_os_page_align_areax(vc_nondet_bool("conservative"), g_area + g_aoff, vc_nondet_size("size"), ns); VC_REACH(); }
+void h_os_commit_ex(void) { os_draw(); bool* z; bool r = _mi_os_commit_ex(g_area + g_aoff, vc_nondet_size("size"), z, vc_nondet_size("stat")); VC_REACH(); }
+void h_os_purge_ex(void) { os_draw(); bool r = _mi_os_purge_ex(g_area + g_aoff, vc_nondet_size("size"), vc_nondet_bool("allow_reset"), vc_nondet_size("stat")); VC_REACH(); }
